@@ -123,6 +123,7 @@ func Plan(out string, seed uint64, tier string, scenario string, count int, epoc
 			if i%12 == 10 {
 				pr.ForkBias = "phase0long"
 				pr.Phase0Leak = true
+				pr.LowBalances = n != "mass_slashing"
 			}
 			switch i % 12 {
 			case 3:
@@ -152,6 +153,8 @@ func Plan(out string, seed uint64, tier string, scenario string, count int, epoc
 				// four phase0 epochs with a leak, altair on a sync-period boundary
 				pr.ForkBias = "phase0long"
 				pr.Phase0Leak = true
+				pr.LowBalances = true
+				pr.RetryUntil = "sync_sampling_wrapped_with_rejections,proposer_sampling_rejections_in_a_row"
 				if pr.Epochs < 9 {
 					pr.Epochs = 9
 				}
@@ -295,6 +298,8 @@ func CLI(args []string) int {
 // RequiredQuick: counters (summary.json: per_fork.<fork>.<k> for "<fork>.<k>", else counts.<k>) that must be non-zero in
 // every quick run.
 var RequiredQuick = []string{
+	// round 8
+	"sync_sampling_wrapped_with_rejections", "proposer_sampling_rejections_in_a_row",
 	// round 7
 	"phase0.att_prev_epoch_index_above_current_count",
 	"deposit_fork_conflicting_registration",
